@@ -140,6 +140,14 @@ class Run(object):
         unknown = [o for o in obs if o.result == "unknown"]
         for o in unknown:
             self.undecided.append(o.name)
+        # vacuity guards: an unreachable cover point means a contradictory contract -- nothing proved under it is believed.
+        # That is a defect of the check, never a violation of the property.
+        vac = [o for o in obs if o.kind == "cover" and not o.discharged]
+        for o in vac:
+            if o.name not in self.undecided:
+                self.undecided.append(o.name + " (VACUOUS: cover point unreachable)")
+        if vac:
+            self.violations = [v for v in self.violations if "cover#" not in v[0]]
         if total == 0 and not self.bounded:
             print("CHECKER-ERROR property=%s zero obligations generated (vacuous run)" % self.pid)
             self.write_evidence(obs, total, discharged)
